@@ -232,6 +232,24 @@ def np_ascontiguousarray(a, dtype=None, **kw):
     return _as_layout(a, dtype, 'C')
 
 
+def np_result_type(*args):
+    """NumPy's promotion of dtypes / arrays / scalars; a symbolic scalar takes part as a Python scalar of its kind"""
+    conv = []
+    for a in args:
+        a = _unlazy(a)
+        if isinstance(a, SArr):
+            conv.append(_np.empty(0, a.ldtype))
+        elif isinstance(a, core.SFloat):
+            conv.append(1.0)
+        elif isinstance(a, core.SInt):
+            conv.append(1)
+        elif isinstance(a, core.SBool):
+            conv.append(True)
+        else:
+            conv.append(a)
+    return _np.result_type(*conv)
+
+
 def np_copy(a, **kw):
     return _as_sarr(a).copy()
 
